@@ -19,6 +19,8 @@ ASSUMPTIONS = [
     "generated projects also contain: input nodes that are symbolic links edited through their target (model: state = content the spelling denotes), "
     "a DirectoryNode product declared before / after the ordinary file products of some tasks (its files are implementation-only and never edited; "
     "model replay and oracle cover the ordinary products), a constant hashed PythonNode dependency; successive builds of one history run under different PYTHONHASHSEEDs",
+    "generated projects also pass some dependencies inside one dict / list / tuple argument together with plain Python values (same dependency set), "
+    "and place some task modules in sub-directories that carry a pyproject.toml without a pytask section",
 ]
 EDITS = ["write", "write", "revert", "rewrite_same", "touch", "delete_input", "bump", "revert_module", "tamper", "delete_product",
          "rewire", "add_task", "remove_task"]
@@ -34,7 +36,7 @@ def oracle(hist, records):
         if obs.get("raised"):
             bad.append(("returns", f"build raised {obs['raised']}", None))
             continue
-        if obs.get("exit") != 0 or cfg.get("dry"):
+        if obs.get("exit") != 0 or cfg.get("dry") or cfg.get("sub"):
             continue
         prods = {p for t in spec["tasks"] for p in t["prods"]}
         inputs = {n: v for n, v in rec["post"].items() if n not in prods}
@@ -128,7 +130,7 @@ def histories(ctx):
     hs = []
     for i in range(ctx.scale(70, 800)):
         spec = engine.gen_spec(rng, nt=(2, 7), after_p=0.2, after_needs_prods=True, user_markers=True, marks=(("skip", 0.05),),
-                               link_p=0.3, dirprod_p=0.3, hashed_p=0.25)
+                               link_p=0.3, dirprod_p=0.3, hashed_p=0.25, bag_p=0.3, subdir_p=0.3)
         hs.append(histgen.random_history(rng, spec, rng.randint(4, 10), EDITS, CFGS, final_build={}))
     return hs
 
